@@ -126,3 +126,91 @@ wide_field!(CW3ns, W3ns, 3, "627710173538668076383578942320766641610235544446403
 wide_field!(CW4fr, W4fr, 4, "52435875175126190479447740508185965837690552500527637822603658699938581184513", "7");
 wide_field!(CW4secp, W4secp, 4, "115792089237316195423570985008687907853269984665640564039457584007908834671663", "3");
 wide_field!(CW6fq, W6fq, 6, "4002409555221667393417789825735904156556882819939007885332058136124031650490837864442687629129015664037894272559787", "2");
+
+// ---- toy pairing-friendly curves (embedding degree 4, instantiating the MNT4 model): exhaustive bilinearity checks (C06)
+//   A: y^2 = x^3 + 2x + 4 over F_241, #E = r = 257 (prime), trace -15: ate loop count -16 (negative), last chunk p - 15
+//   B: y^2 = x^3 +  x + 5 over F_1277, #E = 4 * 313, trace 26: ate loop count 25 = NAF(1,0,-1,0,0,1), last chunk 4p + 102
+// constants computed by brute force (point counting, NAF, beta^((p^i-1)/4)) with a Python script; every one of them is also
+// re-derived by the exhaustive checks (a wrong constant breaks bilinearity / non-degeneracy on all pairs).
+use ark_ec::models::mnt4::{MNT4Config, MNT4};
+use ark_ff::{Fp4, Fp4Config};
+macro_rules! toy_mnt4 {
+    ($m:ident, $p:literal, $pg:literal, $r:literal, $rg:literal, $beta:literal, $a:literal, $b:literal, $abeta:literal, $bbeta:literal,
+     $gx:literal, $gy:literal, $qx0:literal, $qx1:literal, $qy0:literal, $qy1:literal,
+     $h1:expr, $h1inv:literal, $h2:expr, $h2inv:literal, $naf:expr, $neg:expr, $w1:literal, $w0neg:expr, $w0:literal, $f1:literal, $f2:literal, $f3:literal) => {
+        pub mod $m {
+            use super::*;
+            #[derive(MontConfig)]
+            #[modulus = $p]
+            #[generator = $pg]
+            pub struct FqC;
+            pub type Fq = Fp64<MontBackend<FqC, 1>>;
+            #[derive(MontConfig)]
+            #[modulus = $r]
+            #[generator = $rg]
+            pub struct FrC;
+            pub type Fr = Fp64<MontBackend<FrC, 1>>;
+            pub struct Fq2C;
+            impl Fp2Config for Fq2C {
+                type Fp = Fq;
+                const NONRESIDUE: Fq = MontFp!($beta);
+                const FROBENIUS_COEFF_FP2_C1: &'static [Fq] = &[MontFp!("1"), MontFp!("-1")];
+            }
+            pub type Fq2 = Fp2<Fq2C>;
+            pub struct Fq4C;
+            impl Fp4Config for Fq4C {
+                type Fp2Config = Fq2C;
+                const NONRESIDUE: Fq2 = Fq2::new(MontFp!("0"), MontFp!("1"));
+                const FROBENIUS_COEFF_FP4_C1: &'static [Fq] = &[MontFp!("1"), MontFp!($f1), MontFp!($f2), MontFp!($f3)];
+            }
+            pub type Fq4 = Fp4<Fq4C>;
+            #[derive(Clone, Copy, PartialEq, Eq, Debug)]
+            pub struct G1C;
+            impl CurveConfig for G1C {
+                type BaseField = Fq;
+                type ScalarField = Fr;
+                const COFACTOR: &'static [u64] = &[$h1];
+                const COFACTOR_INV: Fr = MontFp!($h1inv);
+            }
+            impl SWCurveConfig for G1C {
+                const COEFF_A: Fq = MontFp!($a);
+                const COEFF_B: Fq = MontFp!($b);
+                const GENERATOR: sw::Affine<Self> = sw::Affine::new_unchecked(MontFp!($gx), MontFp!($gy));
+            }
+            #[derive(Clone, Copy, PartialEq, Eq, Debug)]
+            pub struct G2C;
+            impl CurveConfig for G2C {
+                type BaseField = Fq2;
+                type ScalarField = Fr;
+                const COFACTOR: &'static [u64] = &[$h2];
+                const COFACTOR_INV: Fr = MontFp!($h2inv);
+            }
+            impl SWCurveConfig for G2C {
+                const COEFF_A: Fq2 = Fq2::new(MontFp!($abeta), MontFp!("0"));
+                const COEFF_B: Fq2 = Fq2::new(MontFp!("0"), MontFp!($bbeta));
+                const GENERATOR: sw::Affine<Self> = sw::Affine::new_unchecked(Fq2::new(MontFp!($qx0), MontFp!($qx1)), Fq2::new(MontFp!($qy0), MontFp!($qy1)));
+            }
+            pub struct Cfg;
+            impl MNT4Config for Cfg {
+                const TWIST: Fq2 = Fq2::new(MontFp!("0"), MontFp!("1"));
+                const TWIST_COEFF_A: Fq2 = Fq2::new(MontFp!($abeta), MontFp!("0"));
+                const ATE_LOOP_COUNT: &'static [i8] = &$naf;
+                const ATE_IS_LOOP_COUNT_NEG: bool = $neg;
+                const FINAL_EXPONENT_LAST_CHUNK_1: ark_ff::BigInt<1> = ark_ff::BigInt([$w1]);
+                const FINAL_EXPONENT_LAST_CHUNK_W0_IS_NEG: bool = $w0neg;
+                const FINAL_EXPONENT_LAST_CHUNK_ABS_OF_W0: ark_ff::BigInt<1> = ark_ff::BigInt([$w0]);
+                type Fp = Fq;
+                type Fr = Fr;
+                type Fp2Config = Fq2C;
+                type Fp4Config = Fq4C;
+                type G1Config = G1C;
+                type G2Config = G2C;
+            }
+            pub type Pairing = MNT4<Cfg>;
+        }
+    };
+}
+toy_mnt4!(mnt4a, "241", "7", "257", "3", "7", "2", "4", "14", "28", "137", "99", "234", "235", "33", "14",
+          1, "1", 225, "8", [1, 0, 0, 0, 0], true, 1, true, 15, "177", "240", "64");
+toy_mnt4!(mnt4b, "1277", "2", "313", "5", "2", "1", "5", "2", "10", "867", "1231", "330", "1163", "172", "640",
+          4, "235", 5204, "107", [1, 0, -1, 0, 0, 1], false, 4, false, 102, "113", "1276", "1164");
